@@ -229,13 +229,14 @@ Qed.
 
 (* ---- the chunk notation of cases files ---------------------------------- *)
 
-(* deterministic filler: linear congruential generator, one byte per step;
+(* deterministic filler: 16-bit linear congruential generator (cheap under
+   vm_compute: no division), the high byte of the state per step;
    the Go harness (harness/cmd/c03/bytes.go, lcgFill) computes the same bytes *)
 Fixpoint lcg_fill (n : nat) (s : N) : bytes :=
   match n with
   | O => []
-  | S k => let s' := (s * 1103515245 + 12345) mod 2147483648 in
-           byte_of_N ((s' / 65536) mod 256) :: lcg_fill k s'
+  | S k => let s' := N.land (141 * s + 28411) 65535 in
+           byte_of_N (N.shiftr s' 8) :: lcg_fill k s'
   end.
 
 Inductive chunk :=
